@@ -34,6 +34,13 @@ theorems hold for every tie-breaking rule.
 unlocks, and only the *deferred* function releases the token); `fixed = true` is the repaired loop
 (token released while still holding the lock).
 
+`closeAgain` is the return of a `Close` call that lost the CAS.  Before the second `fix:` commit
+(also `Cfg.fixed = false`) such a call only did `wg.Wait()`: it may return as soon as the flag is set
+and no loop goroutine exists.  After it (`fixed = true`) it first waits for `closedCh`, which the
+winning call closes after taking the running token.  (`wg.Wait()` additionally waits for goroutines
+that have already released the token and touch no shared state any more; this is not modelled, the
+model lets `Close` return earlier than the code does.)
+
 Modelling assumption A1 (stated in design/C06.md): `deadline = scheduled − clock.Now()` followed by
 `clock.NewTimer(deadline)` is one step with respect to the clock (`decide`): the clock does not
 advance between the two calls.
@@ -138,6 +145,8 @@ inductive Label (κ ν : Type) where
   | closeBegin
   -- the Close caller
   | closeStopCh | closeTake | closeReturn
+  -- return of a Close call that lost the CAS
+  | closeAgain
   -- the loop goroutine
   | peek (hd : Option (Item κ ν))
   | pollStop | pollReset | pollNone
@@ -149,9 +158,14 @@ inductive Label (κ ν : Type) where
   deriving Repr, DecidableEq
 
 structure Cfg where
-  /-- `true`: the loop after the `fix:` commit. -/
+  /-- `false`: `processor.go` as found; `true`: after the two `fix:` commits (the loop releases the
+  token under the lock when it sees the queue empty; a `Close` call that lost the CAS waits until the
+  winning call has taken the running token). -/
   fixed : Bool
   deriving Repr, DecidableEq
+
+/-- The current code. -/
+abbrev fixedCfg : Cfg := ⟨true⟩
 
 variable {κ ν : Type} [DecidableEq κ] [DecidableEq ν]
 
@@ -211,6 +225,10 @@ def step (cfg : Cfg) (s : State κ ν) : Label κ ν → Option (State κ ν)
     if s.cpc = .chClosed ∧ s.token = .free then some { s with token := .close, cpc := .tokenTaken } else none
   | .closeReturn =>
     if s.cpc = .tokenTaken then some { s with cpc := .returned, log := .closeRet :: s.log } else none
+  | .closeAgain =>
+    if s.stopped = true ∧ s.pc = .absent ∧ (cfg.fixed = false ∨ s.token = .close) then
+      some { s with log := .closeRet :: s.log }
+    else none
   | .peek hd =>
     match s.pc with
     | .top =>
